@@ -186,7 +186,7 @@ def run(F, R, ctx):
     cells = []
     for v in F.adt("SteelVal")["variants"]:
         for f in v["fields"]:
-            if re.search(r"HeapRef<|RwLock<", f["ty"]) and ("SteelVal" in f["ty"]):
+            if re.search(r"HeapRef<|RwLock<|RefCell<", f["ty"]) and ("SteelVal" in f["ty"]):
                 cells.append(v["name"])
     R.floor("C18.c", "mutable cell kinds of SteelVal", len(cells), 3)
     DESC = r"EqualityVisitor as BreadthFirstSearchSteelValVisitor>::(visit_\w+|push_back)$"
